@@ -398,6 +398,10 @@ fn ref_parse(name: &str, val: &str) -> RefVal {
     match name {
         "gc_trigger" => {
             if !is_ascii {
+                // text around "Delegated" is undocumented (see below), whatever its alphabet
+                if val.contains("Delegated") {
+                    return RefVal::Abstain;
+                }
                 return if val.chars().all(|c| !c.is_numeric() || c.is_ascii_digit()) { RefVal::Reject } else { RefVal::Abstain };
             }
             if val == "Delegated" {
